@@ -14,14 +14,28 @@ use crate::gen::*;
 use crate::progs::*;
 use crate::repo::*;
 
-const MODES: [&str; 13] = [
+const MODES: [&str; 15] = [
     "direct", "helper", "inline", "let", "lambda", "branch_of_dynamic_condition", "condition_position", "failing_branch_only", "dead_branch_of_static_condition",
-    "not_at_all", "helper_that_ignores_it", "rest_argument", "second_use_only_in_helper_of_helper",
+    "not_at_all", "helper_that_ignores_it", "rest_argument", "second_use_only_in_helper_of_helper", "end_of_a_chain_of_conditional_helpers", "deeply_nested_argument_expression",
 ];
 
 /// One use expression for parameter `u` in the given mode; may add helpers. `other`: another parameter (or a literal) for conditions.
-fn use_expr(mode: &str, u: &str, other: &Expr, k: usize, helpers: &mut Vec<Helper>) -> Expr {
-    let v = |n: &str| Expr::Var(n.to_string());
+/// a small expression that mentions `u` (bare, inside arithmetic with a constant, next to quoted data, as an inner condition …)
+fn decorated(rng: &mut Rng, u: &str) -> Expr {
+    let v = Expr::Var(u.to_string());
+    match rng.below(7) {
+        0 | 1 => v,
+        2 => Expr::Prim("+", vec![v, Expr::Lit(Lit::Int(1))]),
+        3 => Expr::Prim("sha256", vec![v, Expr::Lit(Lit::Int(5))]),
+        4 => Expr::Prim("c", vec![v, Expr::Quote(V::list(&[V::int(7), V::int(8)]))]),
+        5 => Expr::If(Box::new(v), Box::new(Expr::Quote(V::int(5))), Box::new(Expr::Lit(Lit::Int(6)))),
+        _ => Expr::List(vec![v, Expr::Lit(Lit::Str(b"x".to_vec(), b'"'))]),
+    }
+}
+
+fn use_expr(rng: &mut Rng, mode: &str, u: &str, other: &Expr, k: usize, helpers: &mut Vec<Helper>) -> Expr {
+    let du = decorated(rng, u);
+    let v = |n: &str| if n == u { du.clone() } else { Expr::Var(n.to_string()) };
     let int = |i: i64| Expr::Lit(Lit::Int(i));
     let one_param = |n: &str| Pat::flat(&[(n.to_string(), Ty::Any)], None);
     match mode {
@@ -58,6 +72,26 @@ fn use_expr(mode: &str, u: &str, other: &Expr, k: usize, helpers: &mut Vec<Helpe
             let name = format!("ur_{k}");
             helpers.push(Helper::Fun(Fun { name: name.clone(), inline: false, params: Pat::flat(&[("X".to_string(), Ty::Any)], Some(("R".to_string(), Ty::Any))), body: Expr::List(vec![v("X"), v("R")]), ret: Ty::Any, recursive: false }));
             Expr::Call(name, vec![int(1)], Some(Box::new(v(u))))
+        }
+        "end_of_a_chain_of_conditional_helpers" => {
+            // h_0(X) = (if X (h_1 X) 0) ... h_n(X) = X : the parameter only comes out at the end of n nested conditionals
+            let n = *rng.pick(&[2usize, 5, 12, 19, 20, 21, 30, 45]);
+            for i in 0..n {
+                helpers.push(Helper::Fun(Fun { name: format!("ch_{k}_{i}"), inline: false, params: one_param("X"),
+                    body: Expr::If(Box::new(Expr::Var("X".into())), Box::new(Expr::Call(format!("ch_{k}_{}", i + 1), vec![Expr::Var("X".into())], None)), Box::new(int(0))), ret: Ty::Any, recursive: false }));
+            }
+            helpers.push(Helper::Fun(Fun { name: format!("ch_{k}_{n}"), inline: false, params: one_param("X"), body: Expr::Var("X".into()), ret: Ty::Any, recursive: false }));
+            Expr::Call(format!("ch_{k}_0"), vec![v(u)], None)
+        }
+        "deeply_nested_argument_expression" => {
+            let depth = *rng.pick(&[3usize, 8, 15, 30, 40]);
+            let mut e = v(u);
+            for i in 0..depth {
+                e = Expr::If(Box::new(other.clone()), Box::new(Expr::List(vec![e, int(i as i64)])), Box::new(int(0)));
+            }
+            let name = format!("dn_{k}");
+            helpers.push(Helper::Fun(Fun { name: name.clone(), inline: false, params: one_param("X"), body: Expr::If(Box::new(Expr::Var("X".into())), Box::new(Expr::Var("X".into())), Box::new(int(1))), ret: Ty::Any, recursive: false }));
+            Expr::Call(name, vec![e], None)
         }
         _ => {
             let n1 = format!("uo_{k}");
@@ -425,7 +459,7 @@ pub fn run(cfg: &Cfg) -> i32 {
         let mut prog = base.prog.clone();
         let nextra = 1 + rng.below(4);
         let mut uses = vec![];
-        let mut extra_names = vec![];
+        let mut extra_names: Vec<String> = vec![];
         let mut modes_used = vec![];
         let old_vars = {
             let mut v = vec![];
@@ -433,10 +467,11 @@ pub fn run(cfg: &Cfg) -> i32 {
             v
         };
         for k in 0..nextra {
-            let u = format!("u{k}");
+            // names before and after `q` in byte order, short and long
+            let u = format!("{}{k}", *rng.pick(&["u", "ww", "solution", "b", "k", "zeta", "m"]));
             let mode = MODES[rng.below(MODES.len())];
-            let other = if !old_vars.is_empty() && rng.chance(2, 3) { Expr::Var(old_vars[rng.below(old_vars.len())].0.clone()) } else if k > 0 && rng.chance(1, 2) { Expr::Var(format!("u{}", k - 1)) } else { Expr::Prim(">", vec![Expr::Lit(Lit::Int(rng.range(0, 3))), Expr::Lit(Lit::Int(1))]) };
-            uses.push(use_expr(mode, &u, &other, k, &mut prog.helpers));
+            let other = if !old_vars.is_empty() && rng.chance(2, 3) { Expr::Var(old_vars[rng.below(old_vars.len())].0.clone()) } else if k > 0 && rng.chance(1, 2) { Expr::Var(extra_names[k - 1].clone()) } else { Expr::Prim(">", vec![Expr::Lit(Lit::Int(rng.range(0, 3))), Expr::Lit(Lit::Int(1))]) };
+            uses.push(use_expr(&mut rng, mode, &u, &other, k, &mut prog.helpers));
             modes_used.push(mode);
             extra_names.push(u);
         }
